@@ -94,12 +94,44 @@ theorem nonzero_spec (m : List Bool) :
   obtain ⟨hp, hb⟩ := nonzeroFrom_pairwise m 0
   exact ⟨hp, fun x hx => by have := hb x hx; omega⟩
 
+theorem getNat_lt {α} (L : List α) (p : Nat) (h : p < L.length) : getNat L p = .ok L[p] := by
+  unfold getNat
+  rw [List.getElem?_eq_getElem h]
+
 /-- picking strictly increasing positions from a strictly increasing list -/
 theorem pick_strict (L : List Int) (hL : L.Pairwise (· < ·)) : ∀ (ps : List Nat),
     ps.Pairwise (· < ·) → (∀ p ∈ ps, p < L.length) →
-    ∃ vs, ps.mapM (getNat L) = .ok vs ∧ vs.Pairwise (· < ·) ∧ (∀ v ∈ vs, v ∈ L) ∧
-      ps.mapM (getNat (L.map Int.toNat)) = .ok (vs.map Int.toNat) ∧
-      (∀ p ∈ ps, ∀ v ∈ vs, ∀ q, L[p]? = some q → True) := by
-  sorry
+    ∃ vs, ps.mapM (getNat L) = .ok vs ∧ vs.Pairwise (· < ·) ∧
+      (∀ v ∈ vs, ∃ q, q ∈ ps ∧ L[q]? = some v) ∧
+      ps.mapM (getNat (L.map Int.toNat)) = .ok (vs.map Int.toNat) := by
+  intro ps
+  induction ps with
+  | nil => intro _ _; exact ⟨[], rfl, List.Pairwise.nil, by simp, rfl⟩
+  | cons p ps' ih =>
+    intro hp hb
+    obtain ⟨hp1, hp2⟩ := List.pairwise_cons.mp hp
+    have hpl : p < L.length := hb p (List.mem_cons_self ..)
+    obtain ⟨vs', h1, h2, h3, h4⟩ := ih hp2 (fun q hq => hb q (List.mem_cons_of_mem _ hq))
+    refine ⟨L[p] :: vs', ?_, ?_, ?_, ?_⟩
+    · rw [List.mapM_cons, getNat_lt L p hpl, h1]; rfl
+    · refine List.pairwise_cons.mpr ⟨?_, h2⟩
+      intro v hv
+      obtain ⟨q, hq, hqv⟩ := h3 v hv
+      have hpq : p < q := hp1 q hq
+      have hql : q < L.length := hb q (List.mem_cons_of_mem _ hq)
+      have := (List.pairwise_iff_getElem.mp hL) p q hpl hql hpq
+      rw [List.getElem?_eq_getElem hql] at hqv
+      simp only [Option.some.injEq] at hqv
+      omega
+    · intro v hv
+      simp only [List.mem_cons] at hv
+      rcases hv with rfl | hv
+      · exact ⟨p, List.mem_cons_self .., List.getElem?_eq_getElem hpl⟩
+      · obtain ⟨q, hq, hqv⟩ := h3 v hv
+        exact ⟨q, List.mem_cons_of_mem _ hq, hqv⟩
+    · have hpl' : p < (L.map Int.toNat).length := by simpa using hpl
+      rw [List.mapM_cons, getNat_lt _ p hpl', h4]
+      simp
+      rfl
 
 end LazyIx
